@@ -53,16 +53,38 @@ async def _drive(case):
     for b in BATS:
         comps |= {Component(1000 + b, ComponentCategory.INVERTER, InverterType.BATTERY), Component(b, ComponentCategory.BATTERY)}
         conns |= {Connection(2, 1000 + b), Connection(1000 + b, b)}
+    comps |= {Component(21, ComponentCategory.INVERTER, InverterType.SOLAR), Component(22, ComponentCategory.INVERTER, InverterType.SOLAR),
+              Component(31, ComponentCategory.EV_CHARGER)}
+    conns |= {Connection(2, 21), Connection(2, 22), Connection(2, 31)}
     fake = NS(component_graph=_MicrogridComponentGraph(comps, conns), api_client=NS())
     old = connection_manager._CONNECTION_MANAGER
     connection_manager._CONNECTION_MANAGER = fake
     try:
-        proposals, subs, reqs, results, boundsch, status, unused = (Broadcast(name=n) for n in "psrxbtu")
+        boundsch, status, unused = (Broadcast(name=n) for n in "btu")
         registry = ChannelRegistry(name="verif")
-        actor = P1._mk_actor_cls()(proposals.new_receiver(limit=5000), subs.new_receiver(limit=5000), reqs.new_sender(),
-                                   results.new_receiver(limit=5000), registry, component_category=ComponentCategory.BATTERY)
-        actor._verif_bounds = boundsch
         kind = case.get("kind", "battery")
+        # Production wiring: the real PowerWrapper creates the channels and the manager's receivers (with the limits
+        # it chooses) and the real PowerManagingActor, incl. its own _add_system_bounds_tracker; the data pipeline the
+        # tracker asks for a pool is replaced by a factory handing out the bounds channel of this run.
+        from frequenz.sdk.microgrid._power_wrapper import PowerWrapper
+        from frequenz.sdk.microgrid._power_managing import _power_managing_actor as PMA
+        pool_calls = []
+
+        def factory(k):
+            def new_pool(*, priority, component_ids, **_kw):
+                pool_calls.append([k, sorted(component_ids)])
+                return NS(_system_power_bounds=boundsch)
+            return new_pool
+        PMA._data_pipeline = NS(new_battery_pool=factory("battery"), new_ev_charger_pool=factory("ev"), new_pv_pool=factory("pv"))
+        cat = {"battery": (ComponentCategory.BATTERY, None), "ev": (ComponentCategory.EV_CHARGER, None),
+               "pv": (ComponentCategory.INVERTER, InverterType.SOLAR)}[kind]
+        wrapper = PowerWrapper(registry, api_power_request_timeout=timedelta(seconds=5), component_category=cat[0],
+                               component_type=cat[1])
+        proposals, subs = wrapper.proposal_channel, wrapper.bounds_subscription_channel
+        reqs, results = wrapper._power_distribution_requests_channel, wrapper._power_distribution_results_channel
+        wrapper._start_power_managing_actor()
+        actor = wrapper._power_managing_actor
+        assert actor is not None, "PowerWrapper did not start a power manager for a graph that has such components"
         if kind == "battery":
             store = BatteryPoolReferenceStore(
                 channel_registry=registry, resampler_subscription_sender=unused.new_sender(),
@@ -101,7 +123,6 @@ async def _drive(case):
             ticks.append(now)
             return orig_drop(now)
         actor._set_power_group.drop_old_proposals = rec_drop
-        actor.start()
         subscribed = [False] * len(pools)
         bsend = boundsch.new_sender()
         o = lambda x: None if x is None else W(x)
@@ -131,6 +152,10 @@ async def _drive(case):
                                                   exclusion_bounds=sb.exclusion_bounds))
                 elif e["t"] == "sleep":
                     await asyncio.sleep(e["dt"] / 8.0)
+                elif e["t"] == "burst":
+                    # several pools propose in the same event-loop iteration, before the manager runs
+                    await asyncio.gather(*[pools[c["pool"]].propose_power(o(c["p"]), bounds=Bounds(o(c.get("lo")), o(c.get("hi"))))
+                                           for c in e["calls"]])
             except ValueError as exc:
                 err = "ValueError"
             except Exception as exc:  # PVPoolError / EVChargerPoolError: documented rejections
@@ -158,14 +183,21 @@ async def _drive(case):
         for t in tasks:
             t.cancel()
         await asyncio.gather(*tasks, return_exceptions=True)
-        await actor.stop()
+        await wrapper.stop()
         await store.stop()
-        return {"log": log, "sources": srcs, "ticks": log_ticks}
+        return {"log": log, "sources": srcs, "ticks": log_ticks, "pool_calls": pool_calls}
     finally:
         connection_manager._CONNECTION_MANAGER = old
+        PMA._data_pipeline = _REAL_PIPELINE[0]
+
+
+_REAL_PIPELINE = []
 
 
 def run_pools(case):
+    from frequenz.sdk.microgrid._power_managing import _power_managing_actor as PMA
+    if not _REAL_PIPELINE:
+        _REAL_PIPELINE.append(PMA._data_pipeline)
     loop = async_solipsism.EventLoop()
     try:
         return loop.run_until_complete(_drive(case))
@@ -205,6 +237,8 @@ def model_terms(case, obs):
     srcs = obs["sources"]
     rank = {s: i for i, s in enumerate(sorted(srcs))}
     evs, exp = [], []
+    if any(e["t"] == "burst" for e in case["script"]):
+        return None, None      # several proposals within one loop iteration: judged by the oracle only
     subscribed = []
     ticks_at = {}
     for i, now in obs.get("ticks", []):
@@ -296,6 +330,18 @@ def gen_case(rng):
                 e["t"] = "power"
             if e["t"] == "power" and e["p"] is not None and rng.random() < 0.9:
                 e["p"] = sign * abs(e["p"])
+    if n >= 2 and rng.random() < 0.3:
+        sign = {"pv": -1, "ev": 1}.get(case.get("kind"), rng.choice([-1, 1]))
+        for _ in range(rng.randint(1, 2)):
+            order = rng.sample(range(n), n)
+            calls = []
+            for k in order:
+                c = {"pool": k, "p": rng.choice([None, sign * 5, sign * 20, sign * 50, sign * 100, sign * 150])}
+                if rng.random() < 0.6:
+                    lo, hi = rng.choice([None, -100, -50, -20, 0]), rng.choice([None, 0, 20, 50, 100])
+                    c["lo"], c["hi"] = lo, hi
+                calls.append(c)
+            script.insert(rng.randrange(3, len(script) + 1) if len(script) > 3 else len(script), {"t": "burst", "calls": calls})
     if r < 0.34 or rng.random() < 0.25:
         k = 0
         while k < len(script):
@@ -332,6 +378,14 @@ def expiry_cases():
     return out
 
 
+def burst_cases():
+    S = {"incl": [-1000, 1000], "excl": [0, 0]}
+    return [{"pools": [{"name": "limiter", "prio": 5, "op": False}, {"name": "trader", "prio": 1, "op": False}],
+             "script": [{"t": "status", "pool": 0}, {"t": "status", "pool": 1}, {"t": "bounds", "sys": S},
+                        {"t": "burst", "calls": [{"pool": 0, "p": None, "lo": -200, "hi": 200}, {"pool": 1, "p": 600}]},
+                        {"t": "bounds", "sys": S}]}]
+
+
 def shrink_case(case):
     sc = case["script"]
     for i in range(1, len(sc)):
@@ -346,6 +400,7 @@ class PoolApiStream(Stream):
     def gen(self, rng, tier):
         yield from boundary_cases()
         yield from expiry_cases()
+        yield from burst_cases()
         for _ in range(300 if tier == "quick" else 4000):
             yield gen_case(rng)
 
@@ -372,6 +427,8 @@ class PoolApiStream(Stream):
 
     def labels(self, case, obs):
         out = [f"pools={len(case['pools'])}"] + sorted({"call_" + e["t"] for e in case["script"]})
+        if any(e["t"] == "burst" for e in case["script"]):
+            out.append("several_proposals_in_one_loop_iteration")
         if any(p["op"] for p in case["pools"]):
             out.append("has_operating_point_pool")
         if len({p["prio"] for p in case["pools"]}) < len(case["pools"]):
@@ -388,6 +445,9 @@ class PoolApiStream(Stream):
     def oracle(self, case, obs):
         out = []
         cur = None
+        want = [[case.get("kind", "battery"), pool_ids(case)]]
+        if obs.get("pool_calls") is not None and obs["pool_calls"] != want and any(e["t"] != "bounds" for e in case["script"]):
+            out.append({"what": f"wiring: the manager asked the data pipeline for bounds pools {obs['pool_calls']}, needed {want}", "finding": None})
         latest = {}      # pool index -> the proposal its latest call is documented to make
         only_regular = not any(p["op"] for p in case["pools"])
         ticks_at = {}
@@ -400,6 +460,13 @@ class PoolApiStream(Stream):
                     del latest[k]
             if e["t"] == "bounds":
                 cur = e["sys"]
+            if e["t"] == "burst":
+                for c in e["calls"]:
+                    pc = expected_proposal(case, {"t": "power", **c})
+                    if pc in REJECT:
+                        continue
+                    latest[c["pool"]] = {"prio": pc["prio"], "src": obs["sources"][c["pool"]], "pref": pc["pref"], "lo": pc["lo"],
+                                         "hi": pc["hi"], "t_us": x["time"]}
             p = expected_proposal(case, e) if e["t"] in ("power", "charge", "discharge") else None
             # documented argument checks (negative charge/discharge power; charging a PV pool; discharging EV chargers)
             if p in REJECT and x["error"] != p:
